@@ -18,10 +18,22 @@ pub type FxHasher = AHasher;
 pub type FxBuildHasher = ahash::RandomState;
 
 /// A `HashMap` using fast hashing.
+#[cfg(not(kani))]
 pub type FxHashMap<K, V> = hashbrown::HashMap<K, V, FxBuildHasher>;
+/// Verification builds (`cargo kani`) only: association-list stand-in, see `kani_shim`.
+#[cfg(kani)]
+pub type FxHashMap<K, V> = super::kani_shim::VecMap<K, V>;
+/// Verification builds only: hasher argument accepted and ignored by the shim constructors.
+#[cfg(kani)]
+#[derive(Default, Clone, Copy, Debug)]
+pub struct FxBuildHasherShim;
 
 /// A `HashSet` using fast hashing.
+#[cfg(not(kani))]
 pub type FxHashSet<T> = hashbrown::HashSet<T, FxBuildHasher>;
+/// Verification builds (`cargo kani`) only: association-list stand-in, see `kani_shim`.
+#[cfg(kani)]
+pub type FxHashSet<T> = super::kani_shim::VecSet<T>;
 
 /// Static `RandomState` used for consistent hashing within a program run.
 static HASH_STATE: OnceLock<ahash::RandomState> = OnceLock::new();
